@@ -562,7 +562,8 @@ def run_add_to_queue(repo, host, shape, pr, no_octopus=True):
         return 'pushfail'
 
 
-def scenario_queue_then_merge(ctx, shape, pr, natoms, no_octopus=True, nfresh=8, qrefs=True):
+def scenario_queue_then_merge(ctx, shape, pr, natoms, no_octopus=True, nfresh=8, qrefs=True,
+                              extra_monitors=None):
     """C02(c): the real add_to_queue with at most ONE ref refused by the server
     (the job then dies), followed by a fresh job evaluating the queues
     (handle_merge_queues) on whatever state the remote was left in."""
@@ -587,6 +588,8 @@ def scenario_queue_then_merge(ctx, shape, pr, natoms, no_octopus=True, nfresh=8,
         for d in shape:
             ctx.assume(repo.remote['q/' + version_of(d)] == repo.remote[d])
     host = Host(repo, [pr], ctx)
+    if extra_monitors is not None:
+        repo.monitors = list(extra_monitors)     # also observe the queueing job itself
     out1 = run_add_to_queue(repo, host, shape, pr, no_octopus)
     # "every single ref that the remote may reject": at most one refusal
     flags = list(repo.rejected.values())
@@ -607,7 +610,7 @@ def scenario_queue_then_merge(ctx, shape, pr, natoms, no_octopus=True, nfresh=8,
             return []
         return [('C02 PR %d on some but not all of its targets' % pr.id,
                  z3.Or(z3.And(*ins), z3.Not(z3.Or(*ins))))]
-    repo.monitors = [mon, mon_inclusion(shape)]
+    repo.monitors = [mon, mon_inclusion(shape)] if extra_monitors is None else list(extra_monitors)
     out2 = run_merge_queues(repo, host, False)
     return repo, host, out1, out2
 
